@@ -250,6 +250,9 @@ fn eval_inner(target: &str, input: &str) -> Option<String> {
             }
         }
         "default_ns" => c10_default_ns_witness(),
+        "ns_layout" => bounded::ns_layout(input),
+        "char_ref" => bounded::char_ref(input),
+        "level_order" => bounded::level_order(input),
         "tree_ops" => {
             let f: Vec<&str> = input.split(' ').collect();
             if f.len() != 5 { return None; }
@@ -291,6 +294,9 @@ fn inputs(target: &str, large: bool) -> Vec<String> {
             }
             v
         }
+        "ns_layout" => bounded::ns_layouts(),
+        "char_ref" => bounded::ref_strings(large),
+        "level_order" => { let mut v = Vec::new(); for d in 0..3 { for n in 0..12 { v.push(format!("{} {}", d, n)); } } v }
         "default_ns" => vec!["<a xmlns=\"u\"/> + append(new element b in no namespace)".to_string()],
         "xhtml_ns" => vec!["<h:p xmlns:h=\"http://www.w3.org/1999/xhtml\"><h:br/></h:p>".to_string()],
         "text_roundtrip_gt" | "cdata_roundtrip" => {
@@ -505,4 +511,168 @@ fn c10_default_ns_witness() -> Option<String> {
     let name = xot2.element(b2)?.name();
     let (_, ns) = xot2.name_ns_str(name);
     if ns != "" { Some(format!("serialised as {:?}; the element b is read back in namespace {:?}", s, ns)) } else { None }
+}
+
+// =============================================================================================
+// bounded stand-ins for functions outside the verifier's reach (labelled bounded, never counted as proved)
+mod bounded {
+    use xot::Xot;
+
+    /// namespace layouts: three nested elements, each optionally (re)declaring the default namespace (u1, u2 or
+    /// undeclaring it) and/or a prefix p / q, each named in no namespace, u1 or u2, plus an attribute on the innermost
+    /// element.  Serialisation must fail or reparse to the same expanded names (C01 / C10).
+    pub fn ns_layouts() -> Vec<String> {
+        let mut v = Vec::new();
+        let decls = ["", "d1", "d2", "d0", "p1", "p2", "q1", "d1p1", "d1q1", "d0p1", "d2p1"];
+        let names = ["0", "1", "2"];
+        for da in decls { for db in decls { for dc in ["", "d0", "p2", "d2"] {
+            for na in names { for nb in names { for nc in names { for attr in ["-", "1", "2"] {
+                v.push(format!("{}|{}|{}|{}{}{}|{}", da, db, dc, na, nb, nc, attr));
+            }}}}
+        }}}
+        v
+    }
+
+    pub fn ns_layout(input: &str) -> Option<String> {
+        let f: Vec<&str> = input.split('|').collect();
+        if f.len() != 5 { return None; }
+        let mut xot = Xot::new();
+        let uris = ["", "http://u1", "http://u2"];
+        let ns_ids: Vec<_> = uris.iter().map(|u| xot.add_namespace(u)).collect();
+        let empty = xot.empty_prefix();
+        let p = xot.add_prefix("p");
+        let q = xot.add_prefix("q");
+        let names: Vec<char> = f[3].chars().collect();
+        let mut els = Vec::new();
+        for (i, local) in ["a", "b", "c"].iter().enumerate() {
+            let nsi = names[i].to_digit(10)? as usize;
+            let name = xot.add_name_ns(local, ns_ids[nsi]);
+            let el = xot.new_element(name);
+            // declarations
+            let d = f[i];
+            let mut k = 0;
+            let chars: Vec<char> = d.chars().collect();
+            while k + 1 < chars.len() {
+                let pre = match chars[k] { 'd' => empty, 'p' => p, 'q' => q, _ => return None };
+                let n = ns_ids[chars[k + 1].to_digit(10)? as usize];
+                if pre != empty && chars[k + 1] == '0' { return None; }
+                xot.namespaces_mut(el).insert(pre, n);
+                k += 2;
+            }
+            if let Some(parent) = els.last() { xot.append(*parent, el).ok()?; }
+            els.push(el);
+        }
+        if f[4] != "-" {
+            let nsi = f[4].parse::<usize>().ok()?;
+            let an = xot.add_name_ns("at", ns_ids[nsi]);
+            xot.attributes_mut(els[2]).insert(an, "v".to_string());
+        }
+        // known finding (C10): an element in no namespace below a default namespace declaration
+        {
+            let mut default_bound = false;
+            for (i, d) in f[..3].iter().enumerate() {
+                if d.contains("d1") || d.contains("d2") { default_bound = true; }
+                if d.contains("d0") { default_bound = false; }
+                if names[i] == '0' && default_bound { return None; }
+            }
+        }
+        let s = match xot.to_string(els[0]) { Ok(s) => s, Err(_) => return None };   // refusing is allowed
+        let mut xot2 = Xot::new();
+        let root2 = match xot2.parse(&s) { Ok(r) => r, Err(e) => return Some(format!("serialised as {:?}, which does not reparse: {:?}", s, e)) };
+        let mut n2 = xot2.document_element(root2).ok()?;
+        for (i, el) in els.iter().enumerate() {
+            let want = { let nm = xot.element(*el)?.name(); let (l, u) = xot.name_ns_str(nm); (l.to_string(), u.to_string()) };
+            let got = { let nm = xot2.element(n2)?.name(); let (l, u) = xot2.name_ns_str(nm); (l.to_string(), u.to_string()) };
+            if want != got { return Some(format!("serialised as {:?}: element {} is read back as {:?} instead of {:?}", s, i, got, want)); }
+            if i == 2 && f[4] != "-" {
+                let want: Vec<(String, String)> = xot.attributes(*el).keys().map(|k| { let (l, u) = xot.name_ns_str(k); (l.to_string(), u.to_string()) }).collect();
+                let got: Vec<(String, String)> = xot2.attributes(n2).keys().map(|k| { let (l, u) = xot2.name_ns_str(k); (l.to_string(), u.to_string()) }).collect();
+                if want != got { return Some(format!("serialised as {:?}: attributes read back as {:?} instead of {:?}", s, got, want)); }
+            }
+            if i < 2 { n2 = xot2.first_child(n2)?; }
+        }
+        None
+    }
+
+    /// character / entity references: the parser must accept exactly the XML 1.0 productions
+    /// `&name;` (five predefined names), `&#[0-9]+;`, `&#x[0-9a-fA-F]+;` denoting an XML Char
+    pub fn ref_strings(large: bool) -> Vec<String> {
+        super::strings(&['&', '#', 'x', 'X', '4', '1', 'A', 'g', 't', ';', '+', '0'], if large { 7 } else { 6 })
+            .into_iter().filter(|s| s.starts_with('&') && s.contains(';')).collect()
+    }
+
+    fn xml_ref_value(body: &str) -> Option<char> {
+        match body { "amp" => return Some('&'), "lt" => return Some('<'), "gt" => return Some('>'), "apos" => return Some('\''), "quot" => return Some('"'), _ => {} }
+        let code = if let Some(h) = body.strip_prefix("#x") {
+            if h.is_empty() || !h.chars().all(|c| c.is_ascii_hexdigit()) { return None; }
+            u32::from_str_radix(h, 16).ok()?
+        } else if let Some(d) = body.strip_prefix('#') {
+            if d.is_empty() || !d.chars().all(|c| c.is_ascii_digit()) { return None; }
+            d.parse::<u32>().ok()?
+        } else { return None };
+        let c = char::from_u32(code)?;
+        let ok = matches!(code, 0x9 | 0xA | 0xD | 0x20..=0xD7FF | 0xE000..=0xFFFD | 0x10000..=0x10FFFF);
+        if ok { Some(c) } else { None }
+    }
+
+    /// reference reading of text consisting of references and the characters of the alphabet
+    fn xml_text_value(s: &str) -> Option<String> {
+        let mut out = String::new();
+        let mut rest = s;
+        while !rest.is_empty() {
+            if let Some(r) = rest.strip_prefix('&') {
+                let end = r.find(';')?;
+                out.push(xml_ref_value(&r[..end])?);
+                rest = &r[end + 1..];
+            } else {
+                let c = rest.chars().next()?;
+                out.push(c);
+                rest = &rest[c.len_utf8()..];
+            }
+        }
+        Some(out)
+    }
+
+    pub fn char_ref(input: &str) -> Option<String> {
+        let doc = format!("<a>{}</a>", input);
+        let want = xml_text_value(input);
+        let mut xot = Xot::new();
+        match (xot.parse(&doc), want) {
+            (Ok(root), Some(w)) => {
+                let de = xot.document_element(root).ok()?;
+                let got = xot.string_value(de);
+                // CR produced by a reference stays CR
+                if got != w { Some(format!("{:?} is read as {:?}, XML 1.0 says {:?}", doc, got, w)) } else { None }
+            }
+            (Ok(root), None) => {
+                let de = xot.document_element(root).ok()?;
+                Some(format!("{:?} is not well-formed XML (bad reference) but is accepted, read as {:?}", doc, xot.string_value(de)))
+            }
+            (Err(e), Some(w)) => Some(format!("{:?} is well-formed (denotes {:?}) but is rejected: {:?}", doc, w, e)),
+            (Err(_), None) => None,
+        }
+    }
+
+    /// level_order against a reference breadth-first traversal built from `children`
+    pub fn level_order(input: &str) -> Option<String> {
+        let f: Vec<&str> = input.split(' ').collect();
+        let docs = ["<a><b><d/><e/></b><c><f/></c></a>", "<a>t<b x='1'><c/>u</b><!--k--><d><e><f/></e></d></a>", "<a/>"];
+        let mut xot = Xot::new();
+        let root = xot.parse(docs[f[0].parse::<usize>().ok()? % docs.len()]).ok()?;
+        let nodes: Vec<_> = xot.descendants(root).collect();
+        let start = *nodes.get(f[1].parse::<usize>().ok()?)?;
+        use xot::LevelOrder;
+        let got: Vec<String> = xot.level_order(start).map(|lo| match lo { LevelOrder::Node(n) => format!("N{}", nodes.iter().position(|x| *x == n).unwrap()), LevelOrder::End => "E".to_string() }).collect();
+        // reference: start as its own sequence, then the child sequences of every node in breadth-first order
+        let mut want = vec![format!("N{}", nodes.iter().position(|x| *x == start).unwrap()), "E".to_string()];
+        let mut queue = std::collections::VecDeque::new();
+        queue.push_back(start);
+        while let Some(n) = queue.pop_front() {
+            let kids: Vec<_> = xot.children(n).collect();
+            if kids.is_empty() { continue; }
+            for k in &kids { want.push(format!("N{}", nodes.iter().position(|x| x == k).unwrap())); queue.push_back(*k); }
+            want.push("E".to_string());
+        }
+        if got != want { Some(format!("level_order from node {} of document {}: {:?}, expected {:?}", f[1], f[0], got, want)) } else { None }
+    }
 }
